@@ -550,12 +550,19 @@ int cif_loop_get_packets(
 
 /* All uthash fatal errors arise from memory allocation failure */
 #undef uthash_fatal
-#define uthash_fatal(msg) FAIL(soft, CIF_MEMORY_ERROR)
+#define uthash_fatal(msg) FAIL(add, CIF_MEMORY_ERROR)
             for (name = temp_it->item_names; *name; name += 1) {
                 struct set_element_s *element = (struct set_element_s *) malloc(sizeof(struct set_element_s));
 
                 if (element) {
                     HASH_ADD_KEYPTR(hh, temp_it->name_set, *name, U_BYTES(*name), element);
+                    continue;
+
+                    /* referenced by the HASH_ADD_KEYPTR macro: */
+                    FAILURE_HANDLER(add):
+                    CIF_HASH_ADD_UNDO(hh, temp_it->name_set, element);
+                    free(element);
+                    DEFAULT_FAIL(soft);
                 } else {
                     FAIL(soft, CIF_MEMORY_ERROR);
                 }
